@@ -353,7 +353,7 @@ def classify_shanks(mp, desc, f, p):
     """mechanism classifier for a wrong nsum value with Shanks enabled: re-run the same sum and look (through a wrapper
     around ctx.shanks) whether the returned value is the last entry of an epsilon table whose extrapolation column has
     already converged to rounding noise (differences <= 2^-(wp-8) relative) -- the noise-amplification path"""
-    seen = {'noise': False, 'calls': 0}
+    seen = {'noise': False, 'calls': 0, 'coincidence': False}
     orig = mp.shanks
 
     def spy(seq, table=None, randomized=False):
@@ -366,6 +366,13 @@ def classify_shanks(mp, desc, f, p):
                 sc = abs(col1[-1])
                 if sc and d1 <= sc * mp.mpf(2) ** (8 - mp.prec) and d2 <= sc * mp.mpf(2) ** (8 - mp.prec) and len(T[-1]) > 3:
                     seen['noise'] = True
+            # two consecutive entries of an extrapolation column exactly equal although the column has not converged
+            # (the next entry differs by more than the target tolerance): shanks() treats b == 0 as 'converged exactly'
+            for j in range(1, len(T[-1]), 2):
+                col = [row[j] for row in T if len(row) > j]
+                for i in range(len(col) - 2):
+                    if col[i] == col[i + 1] and abs(col[i + 2] - col[i + 1]) > abs(col[i + 1]) * mp.mpf(2) ** (-(p + 10)):
+                        seen['coincidence'] = True
         except Exception:
             pass
         return T
@@ -384,6 +391,8 @@ def classify_shanks(mp, desc, f, p):
         mp.shanks = orig
     if seen['noise']:
         return 'C27/nsum/shanks/converged-column-rounding-noise-amplified'
+    if seen['coincidence']:
+        return 'C27/nsum/shanks/coincidentally-equal-entries-taken-as-exact-convergence'
     return None
 
 
@@ -544,8 +553,11 @@ def classify_nsum(mp, desc, f, p, units):
         # finite partition fixed a priori: method x series class x precision bucket (maxterms = 10*dps is smallest at low precision)
         canon = {'r': 'richardson', 's': 'shanks', 'l': 'levin', 'a': 'alternating', 'e': 'euler-maclaurin', 'd': 'direct'}
         dps = __import__('mpmath').libmp.prec_to_dps(p)     # maxterms defaults to 10*dps; 53 bits (the default precision) is dps 15
-        return 'C27/nsum/not-converged-at-maxterms-best-estimate-returned-silently/%s/%s/%s' % (
-            canon.get(method, method), desc['series']['cls'], 'dps<=14' if dps <= 14 else 'dps>=15'), round(min(units, 1e6), 1)
+        a0 = desc['range'][0][0]
+        a0 = -int(desc['range'][0][1]) if isinstance(a0, str) and not isinstance(desc['range'][0][1], str) else (0 if isinstance(a0, str) else int(a0))
+        start = 'negative-start' if a0 < 0 else ('shifted-start' if a0 >= 3 else 'start-0-2')
+        return 'C27/nsum/not-converged-at-maxterms-best-estimate-returned-silently/%s/%s/%s/%s' % (
+            canon.get(method, method), desc['series']['cls'], 'dps<=14' if dps <= 14 else 'dps>=15', start), round(min(units, 1e6), 1)
     return None, None
 
 
@@ -664,8 +676,10 @@ def run_nprod(mp, rec, desc):
                 m = kw.get('method', 'r+s')
                 rec.case(repr(jd), True, cls=label + '/in')
                 rec.event('decided by: ' + tier)
-                rec.violation('C27/nprod/not-converged-at-maxterms-best-estimate-returned-silently/%s/%s/%s' % (
-                    canon.get(m, m), cls, 'dps<=14' if dps <= 14 else 'dps>=15'), 'nprod off by 2^%.1f * 2^-p * |V|' % units,
+                a0 = -b if a == '-inf' else a
+                rec.violation('C27/nprod/not-converged-at-maxterms-best-estimate-returned-silently/%s/%s/%s/%s' % (
+                    canon.get(m, m), cls, 'dps<=14' if dps <= 14 else 'dps>=15', 'shifted-start' if a0 >= 3 else 'start-0-2'),
+                    'nprod off by 2^%.1f * 2^-p * |V|' % units,
                     dict(jd, why_outside=[]), observed=Q.show(v), expected=expect, severity=round(units, 1))
                 return
     if 'e' in kw.get('method', '') and b == '+inf' and inside:
@@ -1221,6 +1235,15 @@ WITNESSES = [
      'prec': 30, 'method': 'richardson'},
     {'kind': 'nprod', 'prod': {'form': 'wallis'}, 'range': [5, '+inf'], 'prec': 30, 'kw': {}},
     {'kind': 'nprod', 'prod': {'form': 'p1'}, 'range': [6, '+inf'], 'prec': 30, 'kw': {'method': 'r'}},
+    {'kind': 'nsum', 'series': {'kind': 'ratl', 'cls': 'ratl', 'form': 'lor', 'c': [12, -2], 't': [9, -2]}, 'range': [[-5, '+inf']], 'prec': 30},
+    {'kind': 'nsum', 'series': {'kind': 'ratl', 'cls': 'ratl', 'form': 'lor', 'c': [6, -2], 't': [7, -2]}, 'range': [[-5, '+inf']], 'prec': 31,
+     'method': 'richardson'},
+    {'kind': 'nsum', 'series': {'kind': 'ratl', 'cls': 'ratl', 'form': 'lor', 'c': [18, -2], 't': [6, -2]}, 'range': [[-5, '+inf']], 'prec': 53,
+     'method': 'levin', 'kw': {'levin_variant': 'v'}},
+    {'kind': 'nsum', 'series': {'kind': 'hyp', 'cls': 'hyp', 'al': [7, -2], 'be': [11, -2], 'ga': [16, -2], 'z': [7, -4]}, 'range': [[1, '+inf']],
+     'prec': 80, 'method': 'r+s'},
+    {'kind': 'nsum', 'series': {'kind': 'hyp', 'cls': 'hyp', 'al': [3, -2], 'be': [12, -2], 'ga': [3, -2], 'z': [8, -4]}, 'range': [[0, '+inf']],
+     'prec': 100, 'method': 'levin', 'kw': {'levin_variant': 'v'}},
     {'kind': 'nsum', 'series': {'kind': 'geom', 'cls': 'geom-alt', 'c': [-8, -2], 'q': [-15, -4]}, 'range': [['-inf', '+inf']], 'prec': 259, 'method': 's'},
     {'kind': 'direct', 'sub': 'levin', 'series': {'kind': 'geom', 'cls': 'geom', 'c': [10, -2], 'q': [16, -5]}, 'start': 1, 'lmethod': 'levin',
      'variant': 'u', 'how': 'step_psum', 'prec': 53},
